@@ -60,6 +60,9 @@ STATIC = [
     ("probe", H % "p6" + "float array B =\n    alpha, 1\nG(B) | m\n"),
     ("probe", H % "p7" + "target dev (v=A[0])\nG | 0\n"),
     ("probe", H % "p8" + "target dev (v=2*alpha + m)\ntype t (w=r)\nVac | 1\n"),
+    # operations named like programs that other pool members include: pristine, they are plain operations
+    ("probe", H % "p9" + "Sub | [1, 2]\nTpl(r=1, alpha=2) | 4\nVac | 0\n"),
+    ("probe", H % "p10" + "Bad | 0\nBad2(1) | [0, 1]\nSub(0.5) | 3\n"),
 ]
 
 
